@@ -31,7 +31,7 @@ RESULT = "header::Header"
 CENSUS = {
     ("pre", "propagate:" + codec.TRY_MAP),                       # not a map
     ("all", "propagate:<common::Label as common::AsCborValue>::from_cbor_value"),  # label not int/tstr or out of range
-    ("all", "err:DuplicateMapKey@contains"),
+    ("all", "err:DuplicateMapKey"),
     ("1", "propagate:<common::RegisteredLabelWithPrivate<T> as common::AsCborValue>::from_cbor_value"),
     ("2", "type-error:slot?"), ("2", "err:UnexpectedItem@is_empty"),
     ("2", "propagate:<common::RegisteredLabel<T> as common::AsCborValue>::from_cbor_value"),
